@@ -118,7 +118,7 @@ proof fn verif_canary_must_fail(x: int) ensures x > 0 { }
 """
 
 
-def run_verus_file(uid, gen_text, obls, workdir, timeout=600, rlimit=None):
+def run_verus_file(uid, gen_text, obls, workdir, timeout=600, rlimit=100):
     """run Verus on one generated file; fill obligation statuses by marker; returns UnitResult"""
     res = UnitResult(uid)
     res.engine = "verus 0.2026.09.13 / z3"
